@@ -594,6 +594,17 @@ func ruleC20_3(c *Ctx) {
 	} else {
 		c.Fail("C20.3", "timeout-context", desc, c.P.InstrPos(wt)+": the duration is not the transport's timeout field")
 	}
+	// the parent of the timeout context is detached from the caller's cancellation: the caller already has its answer and
+	// may cancel at once; the revalidation is bounded by the configured timeout, not by the caller
+	detached := c.An.dependsOnCall(wt.Call.Args[0], func(cc *ssa.Call) bool {
+		return callIsPkgFunc(&cc.Call, "context", "WithoutCancel") || callIsPkgFunc(&cc.Call, "context", "Background") || callIsPkgFunc(&cc.Call, "context", "TODO")
+	})
+	dd := "the background context does not inherit the caller's cancellation"
+	if detached {
+		c.Pass("C20.3", "detached-from-caller", dd, c.P.InstrPos(wt))
+	} else {
+		c.Fail("C20.3", "detached-from-caller", dd, c.P.InstrPos(wt)+": the timeout context is a child of the request's own context; a caller that cancels after receiving the stale response (deferred cancel, http.Client.Timeout on body close) aborts the revalidation, and the entry is never refreshed")
+	}
 	// cancel is deferred
 	cancelDeferred := false
 	instrsOf(wt.Parent(), func(in ssa.Instruction) {
